@@ -105,3 +105,28 @@ CLAIMED["C19"] = dict(
     text="Decides structural necessary conditions of save/load fidelity: the snapshot carries key, value, weight and both deadlines of the node; the saved entries come from the eviction-order iterator, which runs maintenance under the lock on every path and yields only alive, unexpired entries; the loader skips deadline <= now (HasExpired's boundary in all variants), re-inserts with Set, then restores max(1, deadline - now) with the same clock sample under the right flag/sentinel guards; both loops stop at the maximum and account weights. Round-trip equality on concrete runs and gob itself are NOT decided.",
     note=TB + "Assumes Set/SetExpiresAfter/SetRefreshableAfter behave as C01/C12 decide.",
     ref="DESIGN.md §4 C19")
+
+# ---- round 5 additions (appended to the level text / technique of the properties whose checks grew) ----
+def _add(pid, text, tech=None):
+    CLAIMED[pid]["text"] = CLAIMED[pid]["text"].rstrip() + " Round 5: " + text
+    if tech:
+        CLAIMED[pid]["technique"] = CLAIMED[pid]["technique"].rstrip() + "; " + tech
+
+_CFG = "construction refinement (C01.config): on every enumerated path of New, under scenarios over the options, flags, handlers, recorder, executor (and the default-executor flag), maximum, clock, timer wheel, janitor and buffers are wired as configured"
+_CFGT = "path summaries of the constructor under option scenarios (PATHSUM with decided predicates)"
+_add("C01", _CFG + "; a 'handler configured' test guards only the handler's invocation (C06.handlernil).", _CFGT)
+_add("C03", "what an operation returns never depends on whether a deletion listener is attached (C06.handlernil).")
+_add("C04", _CFG + ".", _CFGT)
+_add("C05", _CFG + "; every mutator of the timer wheel keeps scheduled <=> linked (C13.shape listed here).", _CFGT)
+_add("C06", _CFG + "; a 'handler configured' test guards only the handler's invocation (C06.handlernil).", _CFGT)
+_add("C12", _CFG + "; the built-in calculators implement their documented policy table on whatever type their constructors return, Entry.ExpiresAfter / RefreshableAfter are deadline - snapshot (C12.calc); the clock is the configured one, passed through unchanged, initialised under withTime (C12.clock); no deadline store is reachable from quiet / removing / maintenance operations (C12.sites as reachability census).", _CFGT + "; policy-table check of the calculators by normalised return terms")
+_add("C11", "the built-in refresh calculators implement their documented policy table (C12.calc).")
+_add("C14", _CFG + " - in particular hasDefaultExecutor is true exactly when the default executor is stored (a false flag strands maintenance).", _CFGT)
+_add("C20", _CFG + "; the bundled recorder adds every reported figure exactly once to its own 64-bit counter and nothing else writes a counter, Snapshot / Plus / Minus pair equal names (C20.counter / C20.stats); the striped adder returns only after exactly one successful CompareAndSwap(count, count+delta) on the stripe it read, Value sums every stripe (C20.adder); the split form of the timing wrapper is decided too.", _CFGT + "; exactly-once path counting and writer census on the recorder and adder")
+_add("C08", "the in-flight table is published at most once per group (C08.tableonce); nothing reachable from an in-flight computation - function arguments resolved per call site - touches the main table or blocks (C02.lockorder listed here).", "context-sensitive reachability over resolved callees and function-typed parameters")
+_add("C10", "the timing wrapper hands the dispatch's error through unchanged (C10.wrapload).")
+_add("C02", "the lock-free lookup examines every candidate slot (C15.scan) against the writers' meta-before-pointer order (C15.metaorder); function-typed parameters are resolved per call site in the lock-order reachability.")
+_add("C13", "the sweep precedes size eviction in maintenance (C13.order).")
+_add("C15", "meta-word constants and SWAR helpers agree (C15.swar); bucket index, mask and hasher belong to one table and tag and bucket come from one hash (C15.hashidx); a chain is snapshotted under one hold of its root lock (C15.range).")
+_add("C16", "mask and buffer are read after the producer index the CAS expects (C16.reserve).")
+_add("C18", "policy.access / policy.add record the key in the sketch exactly once on every path and every drained read reaches access (C18.record).")
